@@ -1,1 +1,23 @@
-// access to private items of the parent module (compiled only under --cfg rustdds_verif)
+// access to private items of rtps/fragment_assembler.rs
+use super::*;
+
+impl FragmentAssembler {
+  pub(crate) fn verif_digest(&self) -> String {
+    let b = self
+      .assembly_buffers
+      .iter()
+      .map(|(sn, ab)| {
+        format!(
+          "{}:{}/{}:{:?}:{}",
+          i64::from(*sn),
+          ab.received_bitmap.iter().filter(|b| *b).count(),
+          ab.fragment_count,
+          ab.received_bitmap.iter().map(|b| if b { '1' } else { '0' }).collect::<String>(),
+          crate::verif::common::md5_hex(&format!("{:?}", &ab.buffer_bytes[..]))
+        )
+      })
+      .collect::<Vec<_>>()
+      .join(",");
+    format!("fs={} [{}]", self.fragment_size, b)
+  }
+}
